@@ -14,9 +14,9 @@
    What is NOT a theorem: that CPython enumerates a set of ints in an order that depends only on its construction
    history (trusted, exercised by the differential runs); order-freeness of the unmodelled ring heuristics and of the
    writer's tie-breaks between atoms of equal weight (reason IntHistory / KeyedTieBreak: differential runs only).
-   The faithful model of `list(v)` / `tmp.extend(v)` over a set of str (morgan_hash_smiles) or of molecules, which hash
-   through their str (remove_reagents), is NOT order free: C19_list_of_str_set_refuted (known findings, reproduced on
-   the real code under two hash seeds by every run of the check). *)
+   The faithful model of `list(v)` / `tmp.extend(v)` over a set of molecules, which hash through their str (remove_reagents; and morgan_hash_smiles
+   before fix 59bbd7c, now sorted: C19_sorted_str_perm), is NOT order free: C19_list_of_str_set_refuted (known finding,
+   reproduced on the real code under two hash seeds by every run of the check). *)
 From Coq Require Import ZArith List String Bool Permutation.
 From Model Require Import PyBase Graph Determinism.
 From Model Require Morgan Fingerprint Rings Iso.
@@ -96,6 +96,18 @@ Theorem C19_min_by_first : forall (X : Type) (key : X -> Z) (l : list X) x,
   min_by key l = Some x -> hd_error (filter (same_key key (key x)) l) = Some x.
 Proof. exact @min_by_first. Qed.
 Print Assumptions C19_min_by_first.
+
+(* sorted(S) under a total order (no key): order free; instance: a set of str (morgan_hash_smiles / linear_hash_smiles) *)
+Theorem C19_sort_leb_perm : forall (X : Type) (leb : X -> X -> bool),
+  (forall a b, leb a b = true \/ leb b a = true) -> (forall a b, leb a b = true -> leb b a = true -> a = b) ->
+  (forall a b c, leb a b = true -> leb b c = true -> leb a c = true) ->
+  forall l l', Permutation l l' -> sort_leb leb l = sort_leb leb l'.
+Proof. exact @sort_leb_perm. Qed.
+Print Assumptions C19_sort_leb_perm.
+
+Theorem C19_sorted_str_perm : forall l l' : list string, Permutation l l' -> sorted_str l = sorted_str l'.
+Proof. exact sorted_str_perm. Qed.
+Print Assumptions C19_sorted_str_perm.
 
 Theorem C19_singleton_enum : forall (X : Type) (e e' : list X), Permutation e e' -> List.length e = 1%nat -> e = e'.
 Proof. exact @singleton_enum. Qed.
